@@ -9,7 +9,7 @@ import shutil
 from hypothesis import strategies as st
 
 from vf import cli
-from vf.core import HarnessError, HypPart, Oracle, VERIF_DIR
+from vf.core import HarnessError, HypPart, Oracle, VERIF_DIR, case_digest, reorder
 from vf.gen import keys as K
 from vf.ref import sb2_rom
 
@@ -744,6 +744,7 @@ def _run_cfg(case, o: Oracle, wd: str, BootImageV21) -> None:
         cfg["signPrivateKey" if (case["key_name"] == "sign" and "mainRootCertId" in cfg) else "mainCertPrivateKeyFile"] = "sign_key.pem"
         if case["build"] is not None:
             cfg["imageBuildNumber"] = case["build"]
+    cfg = reorder(cfg, int(case_digest(case)[:8], 16))  # mapping keys in an order picked with the case (a mapping has none)
     o.label("cfg", "certs_as:" + case["certs_as"], "kek_as:" + case["kek_as"], "flags:%s" % case["flags"])
     if len(case["sections"]) > 1:
         o.label("multi_section")
@@ -939,7 +940,7 @@ def _cli_cfg(case, o: Oracle, wd: str, kek: bytes, kek_path: str, key_path: str,
         args += ["-o", out]
     cfg_path = os.path.join(wd, "sb21_cli.yaml")
     with open(cfg_path, "w") as f:
-        yaml.safe_dump(ycfg, f, sort_keys=False)
+        yaml.safe_dump(reorder(ycfg, int(case_digest(case)[:8], 16)), f, sort_keys=False)
     args += ["-c", cfg_path]
     o.label("cli:certs_as:" + case["certs_as"], "cli:kek_as:" + case["kek_as"])
     res = cli.run(o, "sb21_export", args, cwd=os.path.join(wd, "cwd"))
